@@ -91,6 +91,51 @@ Definition c09_nested_anytrue (m : list (list bool)) : bool :=
 Definition c09_nested_alltrue (m : list (list bool)) : bool :=
   fold_left (fun out mi => andb out (c09_alltrue mi)) m true.
 
+(* ---- the type grammar and the traits the generic code dispatches on.
+   t ::= scalar (id, HasNaN, IsNumber)  |  LoopSIMD<t, S, A>      (A = alignment template parameter, 0 = default)
+   loop.hh: ScalarType<LoopSIMD<T,S,A>> = Scalar<T>;  RebindType<U, LoopSIMD<T,S,A>> = LoopSIMD<Rebind<U,T>,S,A>;
+            LaneCount<LoopSIMD<T,S,A>> = S * lanes<T>();  IsNumber<LoopSIMD<T,S,A>> = IsNumber<T>;  HasNaN<LoopSIMD<T,S,A>> = HasNaN<T>
+   standard.hh: Scalar<T> = T, Rebind<U,T> = U, lanes<T>() = 1 for every other type ---- *)
+Inductive c09_ty : Type :=
+| C09_TScalar (id : nat) (hasnan isnumber : bool)
+| C09_TSimd (lanes align : nat) (t : c09_ty).
+
+Fixpoint c09_ty_scalar (t : c09_ty) : c09_ty :=
+  match t with C09_TScalar i h n => C09_TScalar i h n | C09_TSimd _ _ t' => c09_ty_scalar t' end.
+Fixpoint c09_ty_lanes (t : c09_ty) : nat :=
+  match t with C09_TScalar _ _ _ => 1 | C09_TSimd n _ t' => n * c09_ty_lanes t' end.
+Fixpoint c09_ty_hasnan (t : c09_ty) : bool :=
+  match t with C09_TScalar _ h _ => h | C09_TSimd _ _ t' => c09_ty_hasnan t' end.
+Fixpoint c09_ty_isnumber (t : c09_ty) : bool :=
+  match t with C09_TScalar _ _ n => n | C09_TSimd _ _ t' => c09_ty_isnumber t' end.
+Fixpoint c09_ty_rebind (u : c09_ty) (t : c09_ty) : c09_ty :=
+  match t with C09_TScalar _ _ _ => u | C09_TSimd n a t' => C09_TSimd n a (c09_ty_rebind u t') end.
+Fixpoint c09_ty_eqb (a b : c09_ty) : bool :=
+  match a, b with
+  | C09_TScalar i h n, C09_TScalar j k m => Nat.eqb i j && Bool.eqb h k && Bool.eqb n m
+  | C09_TSimd n a t, C09_TSimd n' a' t' => Nat.eqb n n' && Nat.eqb a a' && c09_ty_eqb t t'
+  | _, _ => false
+  end.
+Definition c09_ty_bool : c09_ty := C09_TScalar 0 false true.
+Definition c09_ty_long : c09_ty := C09_TScalar 1 false true.
+Definition c09_ty_float : c09_ty := C09_TScalar 2 true true.
+Definition c09_ty_mask (t : c09_ty) : c09_ty := c09_ty_rebind c09_ty_bool t.          (* Simd::Mask<V> = Rebind<bool, V> *)
+(* the observation of harness/C09/traits.hh, as (name, value of the simd type, value of the corresponding scalar type) *)
+Definition c09_b2n (b : bool) : nat := if b then 1 else 0.
+Definition c09_traits (t : c09_ty) : list (nat * nat) :=
+  let rl := c09_ty_rebind c09_ty_long t in let rf := c09_ty_rebind c09_ty_float t in let m := c09_ty_mask t in
+  [ (c09_b2n (c09_ty_hasnan t), c09_b2n (c09_ty_hasnan (c09_ty_scalar t)));
+    (c09_b2n (c09_ty_isnumber t), c09_b2n (c09_ty_isnumber (c09_ty_scalar t)));
+    (c09_ty_lanes t, c09_ty_lanes t);
+    (c09_ty_lanes m, c09_b2n (c09_ty_eqb (c09_ty_scalar m) c09_ty_bool));
+    (c09_b2n (c09_ty_hasnan m), c09_b2n (c09_ty_hasnan c09_ty_bool));
+    (c09_b2n (c09_ty_eqb (c09_ty_rebind (c09_ty_scalar t) t) t), 1);
+    (c09_ty_lanes rl, c09_b2n (c09_ty_eqb (c09_ty_scalar rl) c09_ty_long));
+    (c09_b2n (c09_ty_hasnan rl), c09_b2n (c09_ty_hasnan c09_ty_long));
+    (c09_b2n (c09_ty_hasnan rf), c09_b2n (c09_ty_hasnan c09_ty_float));
+    (c09_b2n (c09_ty_isnumber rf), c09_b2n (c09_ty_isnumber c09_ty_float));
+    (c09_b2n (c09_ty_eqb (c09_ty_rebind (c09_ty_scalar t) rf) t), 1) ].
+
 (* ---- symbolic carrier: which scalar computation each lane of a result is (the plan the
         correspondence check evaluates with the C++ scalar operators) ---- *)
 Inductive c09_term : Type :=
